@@ -33,6 +33,15 @@ def rec(holder, n):
     return s.encode().hex()
 
 
+@functools.lru_cache(maxsize=None)
+def rel(n):
+    """A RELEASE record (client-go's release() under ReleaseOnCancel: no holder), canonical JSON, as hex. The elector
+    writes it with Update WITHOUT a Get in front of it."""
+    s = ('{"holderIdentity":"","leaseDurationSeconds":1,"acquireTime":"2022-01-01T00:00:00Z",'
+         '"renewTime":"2022-01-01T%02d:%02d:%02dZ","leaderTransitions":%d}' % (n // 3600, n // 60 % 60, n % 60, n))
+    return s.encode().hex()
+
+
 def seq_lines(engine, n, steps, probes=False):
     """steps: list of (op, i, rechex|None)."""
     lines = ["cfg engine=%s n=%d" % (engine, n), "stored"]
@@ -45,6 +54,9 @@ def seq_lines(engine, n, steps, probes=False):
         lines.append("stored")
         if probes:
             lines.append("init %d" % i)
+            # the node's read-only endpoints (leader.GetElectionInfo / GetLeaderInfo / IsLeader) may be asked between any
+            # two steps of the elector: they are no step of the lock
+            lines += ["info %d" % j for j in range(n)]
     return lines
 
 
@@ -58,6 +70,11 @@ def enum_sequences(n, length, regime):
     """All length-`length` sequences over {get,create,update} x candidates."""
     alphabet = [(op, i) for i in range(n) for op in ("get", "create", "update")]
     for combo in itertools.product(alphabet, repeat=length):
+        if regime == "release":
+            # every update is a release (holder-less record): the step the elector takes without a Get in front of it
+            yield [(op, i, None if op == "get" else (rel(pos + 1) if op == "update" else rec(i, pos + 1)))
+                   for pos, (op, i) in enumerate(combo)]
+            continue
         yield [(op, i, None if op == "get" else rec(i, 0 if regime == "const" else pos + 1))
                for pos, (op, i) in enumerate(combo)]
 
@@ -73,6 +90,8 @@ def random_sequence(r, n, length):
         if op != "get":
             if written and r.random() < 0.3:
                 rr = r.choice(written)          # byte-equal rewrite of an earlier record (ABA)
+            elif op == "update" and r.random() < 0.15:
+                rr = rel(pos + 1)               # a release
             else:
                 rr = rec(i, pos + 1)
             written.append(rr)
@@ -140,6 +159,10 @@ def oracle(lines, outs, tally=None):
             pending = None
             continue
         if t[0] == "init":
+            continue
+        if t[0] == "info":
+            # what the endpoint answers is not C14's business (the model/implementation comparison sees it); what it may
+            # have done to the lock shows in the steps that follow
             continue
         if t[0] == "race":
             if len(o) != 4 or not o[2].isdigit():
@@ -321,6 +344,7 @@ def judge_batch(rep, b, stats):
     oh["stored"] = oh.get("stored", 0) + len(b.seqs) + nsteps
     if b.probes:
         oh["init"] = oh.get("init", 0) + nsteps
+        oh["info"] = oh.get("info", 0) + nsteps * b.n
     for q in b.seqs:
         for op, _, _ in q:
             oh[op] = oh.get(op, 0) + 1
@@ -419,12 +443,12 @@ def oracle_selftest():
 def plan(tier, seed):
     """(enumeration descriptions, generator of batches)."""
     if tier == "quick":
-        enums = [("memkv", 2, 6, "fresh"), ("memkv", 2, 6, "const"), ("memkv", 3, 5, "fresh"),
+        enums = [("memkv", 2, 6, "fresh"), ("memkv", 2, 6, "const"), ("memkv", 2, 5, "release"), ("memkv", 3, 5, "fresh"),
                  ("badger", 2, 3, "fresh"), ("tikv", 2, 3, "fresh")]
         randoms = [("memkv", 300), ("badger", 150), ("tikv", 150)]
         rlen = (8, 24)
     else:
-        enums = [("memkv", 2, 7, "fresh"), ("memkv", 2, 7, "const"), ("memkv", 3, 6, "fresh"), ("memkv", 3, 5, "const"),
+        enums = [("memkv", 2, 7, "fresh"), ("memkv", 2, 7, "const"), ("memkv", 2, 6, "release"), ("memkv", 3, 6, "fresh"), ("memkv", 3, 5, "const"),
                  ("badger", 2, 4, "fresh"), ("badger", 2, 4, "const"), ("tikv", 2, 4, "fresh"), ("tikv", 2, 4, "const"),
                  ("badger", 3, 3, "fresh"), ("tikv", 3, 3, "fresh")]
         randoms = [("memkv", 3000), ("badger", 1500), ("tikv", 1500)]
